@@ -149,6 +149,22 @@ def plant(d, r, kind, enc, comment=None):
     elif kind == "page-args":
         ln = d.add("<%page args=\"ttl=_('" + m + "')\"/>" + nl)
         exp(ln, "_", m)
+    elif kind == "signature-multiline":
+        # signatures and call expressions spread over several lines, also starting with a line break
+        Q = '"'
+        m2 = d.msg(w)
+        which = r.choice(["def", "block", "page", "call"])
+        if which == "def":
+            ln = d.add('<%def name="dm' + str(d.n) + "(" + nl + "    a=_('" + m + "')," + nl + "    b=_('" + m2 + "'))" + Q + ">" + nl + "body" + nl + "</%def>" + nl)
+        elif which == "block":
+            ln = d.add('<%block name="bm' + str(d.n) + '" args="' + nl + "    a=_('" + m + "')," + nl + "    b=_('" + m2 + "')" + Q + ">" + nl + "body" + nl + "</%block>" + nl)
+        elif which == "page" and not getattr(d, "has_page", False):
+            d.has_page = True
+            ln = d.add('<%page args="' + nl + "    pa=_('" + m + "')," + nl + "    pb=_('" + m2 + "')" + Q + "/>" + nl)
+        else:
+            ln = d.add('<%call expr="wrap(' + nl + "    _('" + m + "')," + nl + "    _('" + m2 + "'))" + Q + ">" + nl + "in call" + nl + "</%call>" + nl)
+        exp(ln + 1, "_", m)
+        exp(ln + 2, "_", m2)
     elif kind == "call-expr":
         m2 = d.msg(w)
         ln = d.add("<%call expr=\"wrap(_('" + m + "'))\">" + nl + "in call ${_('" + m2 + "')}" + nl + "</%call>" + nl)
@@ -186,7 +202,7 @@ def decoy(d, r, kind):
         d.add("%% if _('" + t + "'):" + nl)
 
 
-PLANTS = ["expr", "expr-gettext", "expr-multiline", "expr-two", "filter-arg", "filter-arg-multiline", "control-if", "control-elif", "control-for", "code-block", "module-block",
+PLANTS = ["expr", "expr-gettext", "expr-multiline", "expr-two", "filter-arg", "filter-arg-multiline", "signature-multiline", "control-if", "control-elif", "control-for", "code-block", "module-block",
           "def-signature", "block-args", "call-expr", "nsdef-attr", "in-def-body"]
 DECOYS = ["text", "text-tag", "doc", "comment", "escaped-percent"]
 
@@ -195,6 +211,7 @@ def build(r, nl, enc):
     d = Doc(nl)
     if r.random() < 0.3:
         plant(d, r, "page-args", enc)
+        d.has_page = True
     attached = detached = 0
     for _ in range(r.randint(4, 14)):
         k = r.random()
